@@ -18,7 +18,7 @@ ID = "C30"
 LEVEL = "exploration"
 TIERS = {
   "quick": {"runs": 96, "chunk": 8, "budget_s": 420, "timeout_s": 300},
-  "thorough": {"runs": 2000, "chunk": 16, "budget_s": 3000, "timeout_s": 300},
+  "thorough": {"runs": 768, "chunk": 16, "budget_s": 1500, "timeout_s": 300},
 }
 RULE = ("one evaluation = one step (or one timed read) compared between mujoco_warp and MuJoCo C on the same op history; models: 1-4 "
         "independent slide/hinge plants with motors and jointpos/jointvel/actuatorfrc/clock sensors, each with seeded delay in {0,1,2,4,7} "
